@@ -28,6 +28,19 @@ CHECKS = {
    note="RTT buffers below the real 20-sample capacity; distinct peers never share an address; foca itself is not modelled, only corrosion's reaction to its notifications"),
 }
 
+REPL_NOTE = "bounded model (2-3 nodes, 2 keys, <=2 transactions per node, message bound); upsert-only data model with unique values; harness is the network (no QUIC, no handle_changes batching); walks sample the behaviour space (seeded), they do not exhaust it; liveness observed, not proved"
+def repl(design, what):
+    return dict(level="model_checking", engine="replication", design=design,
+        technique="TLA+ spec Replication.tla model-checked by TLC + recorded walks of N real agents validated event by event by TLC (TraceReplication.tla) with all invariants evaluated on every state; model counter-examples are executed on the real agents",
+        text=what, note=REPL_NOTE)
+CHECKS.update({
+ "C01": repl("§6/C01", "TLC checks NoInvention / NoLoss (a node that claims a version has every change of it that has not lost globally) / Converged / MergeOfAll on every behaviour of small instances (any delivery order, duplication, re-cut, loss, batching, sync serving, restart); seeded walks over 2-3 real agents are accepted only if every step is the specification's step, and the final drain must reach quiescence with byte-identical tables equal to the merge of all acknowledged transactions."),
+ "C03": repl("§6/C03", "TLC checks Atomic (nothing of a remote version visible before the step that applies it), CoveredIsPending and BufferedHaveRecord on the model; real walks with re-cut, overlapping, duplicated chunks from origin and relays in batches are validated step by step, the harness observes the apply trigger exactly when the specification says the version is covered, and the drain must resolve every partial version."),
+ "C05": repl("§6/C05", "handle_need/process_sync are transcribed (live rows, gaps, buffered ranges, empties); TLC checks on every reachable server state and every need a client can compute that empties are only declared for held dead versions, changes lie inside their changeset's range and fully held live versions are answered with changesets tiling 0..=last; on the real agents every served need must produce exactly the message set the specification computes."),
+ "C06": repl("§6/C06", "Restart (process death + setup + run_root initialisation) is an action enabled between any two commits; TLC checks acked-present / advertised-sound / covered-partials-retriggered with restarts anywhere; real walks copy the database files at a commit boundary and start a full agent with start_with_config on the copy, whose projected state must equal the specification's post-restart state and which must keep converging."),
+ "C07": repl("§6/C07", "LocalTx / LocalNoEffect: real requests through api_v1_transactions incl. constraint, syntax, parameter-count failures at first/last statement and no-op updates; acknowledged version = previous + 1, nothing consumed or emitted otherwise, announced changesets tile 0..=last_seq and contain exactly the writes, own needed always empty; checked by TLC on the trace and directly on the recorded states."),
+})
+
 NOT_APPLICABLE = [
  {"property_id": "C09", "reason": "byte-level codec fidelity/totality (round-trip of every value, arbitrary peer bytes, allocation bounds, UTF-8 validity) is not a state-transition question; a TLA+ model has no state or interleaving to explore there (DESIGN.md §8)"},
 ]
@@ -66,6 +79,7 @@ def main():
             {"name": "syncneeds", "path": "specs/SyncNeeds.tla + harness/src/syncneeds.rs + lib/prop_c04.py", "serves_properties": ["C04"], "kind_free_text": "TLA+ enumeration + translation-style replay of every input on the real function"},
             {"name": "chunker", "path": "specs/Chunker.tla + specs/ChunkRange.tla + harness/src/chunker.rs + lib/prop_c08.py", "serves_properties": ["C08"], "kind_free_text": "TLA+ model checked by TLC; all behaviours replayed"},
             {"name": "members", "path": "specs/Members.tla + specs/MCMembers.tla + harness/src/members.rs + lib/prop_c18.py", "serves_properties": ["C18"], "kind_free_text": "TLA+ model checked by TLC; all edges replayed"},
+            {"name": "replication", "path": "specs/Replication.tla + specs/TraceReplication.tla + specs/MCReplication*.tla + harness/src/sim.rs + lib/repl.py + lib/repl_check.py", "serves_properties": ["C01", "C03", "C05", "C06", "C07"], "kind_free_text": "TLA+ model checked by TLC; recorded walks of real agents validated against the spec; counter-examples replayed on real agents"},
             {"name": "bookkeeping", "path": "specs/Bookkeeping.tla + specs/MCBookkeeping.tla + harness/src/bk.rs + lib/prop_c02.py", "serves_properties": ["C02"], "kind_free_text": "TLA+ model checked by TLC; all edges replayed on the real crates"},
         ],
         "checks": checks,
